@@ -151,8 +151,24 @@ package httpgen
 //@   modifies ctx
 //@   decreases spec.depth(messages)
 
+// the table covers every top-level message of the file, in order, with an empty path prefix
+//@ func (g *Generator) generateFieldExamplesStorage(gf *protogen.GeneratedFile, file *protogen.File) (err error)
+//@   modifies *
+//@   at-call collectMessageFieldExamples requires every_message_in_order: arg1 == file.Messages[count("collectMessageFieldExamples") - old(count("collectMessageFieldExamples"))] && arg2 == ""
+//@   loop 1 invariant count("collectMessageFieldExamples") == old(count("collectMessageFieldExamples")) + _i1
+//@   ensures all_messages: count("collectMessageFieldExamples") == old(count("collectMessageFieldExamples")) + len(file.Messages)
+
+// the example table has one entry per field that declares examples, keyed by the field's path, for every message it is
+// asked about and, recursively, for every message nested in it (C20: a mock field can only take one of its examples if
+// its key is in the table)
 //@ func (g *Generator) collectMessageFieldExamples(gf *protogen.GeneratedFile, message *protogen.Message, prefix string)
+//@   modifies *
 //@   decreases spec.mdepth(message)
+//@   at-call "P:: {" requires keyed_by_the_field_path: line == "\"" + prefix + string(message.Desc.Name()) + "." + string(field.Desc.Name()) + "\": {"
+//@   loop 1 invariant count("P:: {") == old(count("P:: {")) + spec.exampleFieldsBefore(message, _i1)
+//@   loop 2 invariant count("P:: {") == old(count("P:: {")) + spec.exampleFieldsBefore(message, _i1) + 1
+//@   loop 3 invariant count("P:: {") >= old(count("P:: {")) + spec.exampleFieldsBefore(message, len(message.Fields))
+//@   ensures every_example_field_listed: count("P:: {") >= old(count("P:: {")) + spec.exampleFieldsBefore(message, len(message.Fields))
 
 // on-stack set of message types being expanded: a nested call sees a strictly larger set (finitely many full
 // names exist), and every call restores the set it was given
